@@ -74,6 +74,13 @@ CHECKS = {
         "MergeDB repair at the same/another version from donors in map order, donor byte-for-byte comparison) and validated by TLC.",
    note="nodes are named by position; tries with mixed node origins are included",
    technique="TLA+ frontier/lookup oracle (MPTSync.tla) + TLC-enumerated fault sets replayed into the Go code + TLC trace validation"),
+ "C16": dict(level="model_checking", ref="DESIGN.md §5 C16",
+   text="Real concurrent executions on one trie (race detector on) are recorded as call/return histories; MPTConc.tla, built on the "
+        "sequential semantics of MPT.tla, lets TLC search for a linearization of every history (search mode with pending operations "
+        "and a high-water mark) and compares the final content and canonical shape with the sequential execution; race-only runs "
+        "make readers hit missing nodes.",
+   note="data races are decided by the Go race detector; schedules are whatever the Go scheduler plus seeded perturbation produce",
+   technique="TLA+ linearizability trace spec (search mode) checked by TLC over recorded concurrent histories + race detector"),
 }
 
 NOT_APPLICABLE = []
